@@ -63,7 +63,25 @@ CHECKS = {
         'note': 'Trusted: pmc/ref/interp.py (content, weak connectivity); marker alphabet Push/POP only; small-scope hypothesis on graph size and edit depth.',
         'design_ref': 'DESIGN.md section 4 C06',
     },
+    'C05': {
+        'technique': 'explicit-state search (BFS with state hashing) over re-layout operation histories on the real code, with owned randomness',
+        'text': 'From the decoding (and the marker-less twin) of every well-formed tree of several families, all histories up to depth 2/3 of reconfigure(key), configure+rearrange(key, attributes_first) and encode(top=v)+decode are executed on the real code for keys none/original/alphanumeric/canonical/inverted-last/scripted-random under DEFAULT, AMR and MINI; in every reached state the graph content and top are compared with the initial ones, arguments are checked to be untouched, and every rearranged branch list is compared with the stable key order demanded by the statement (numeric suffixes numerically, inverted last, attributes first, concept first). random.random is replaced by scripted answer sequences.',
+        'note': 'Trusted: pmc/ref/interp.py content, pmc/ref/roles.py, reference sort keys in pmc/props/c05.py; collision roles excluded; for random keys only invariants are asserted.',
+        'design_ref': 'DESIGN.md section 4 C05',
+    },
+    'C18': {
+        'technique': 'bounded-exhaustive enumeration of all strings / atom texts over small alphabets on the real quote/evaluate/type and lexer',
+        'text': 'Every string up to length 4/5 over 21 characters (quotes, backslash, controls, NUL, line separators, delimiters, astral) is quoted by the real code and the result is required to be exactly one STRING token for both the real lexer and the reference lexer, alone and inside a graph, to evaluate back to the original and to be typed STRING; every atom text up to length 5/6 over 21/15 characters plus a word list (NaN, Infinity, true, null, hex, full-width digits, ...) is evaluated and typed: total up to ConstantError, numbers exactly for RFC 8259 number syntax (hand-written recogniser), None exactly for empty, never bool/NaN/container, type consistent with the value.',
+        'note': 'Trusted: the RFC 8259 number recogniser and pmc/ref/lexer.py; atom texts are restricted to what the Atom production can yield; small-scope hypothesis.',
+        'design_ref': 'DESIGN.md section 4 C18',
+    },
+    'C19': {
+        'technique': 'bounded-exhaustive enumeration of triple lists, string contents and spacing variants on the real format_triples/parse_triples against a reference recogniser',
+        'text': 'All single triples over 3 sources x 4 roles x (symbol targets incl. "1,000", ",x", "^", "^y" and every quoted string up to length 3/4 over 15 characters), all lists of 2-3(4) triples over a reduced set, and the triples of every decoded tree of a family are written in both line styles and parsed back by the real code; every combination of the four comma spellings and six conjunction-sign spellings (and mixed styles) is parsed and compared with the reference recogniser, and with the original list whenever the pieces cannot glue into other symbols.',
+        'note': 'Trusted: pmc/ref/grammar.py parse_triples and pmc/ref/lexer.py; comma-containing sources, None targets and the anonymous role are not expressible and excluded.',
+        'design_ref': 'DESIGN.md section 4 C19',
+    },
 }
 
 NOT_APPLICABLE = {k: _PENDING for k in
-                  ['C05', 'C09', 'C11', 'C12', 'C15', 'C16', 'C17', 'C18', 'C19', 'C20']}
+                  ['C09', 'C11', 'C12', 'C15', 'C16', 'C17', 'C20']}
